@@ -447,6 +447,7 @@ class State(object):
         self.events = []     # ordered mixed events: ('call'|'store'|'yield'|'raise'|'return'|'del', ...)
         self.hashes = []     # (alg, items, lineno) for every digest taken on this path
         self.bound = {}      # canonical bound-variable name ($k) -> text of the collection it ranges over
+        self.loops = {}      # $k of a summarised loop -> (iterable text incl. fused filter, [(facts taken, {local: value}, new calls, status)])
 
     def fork(self):
         s = State()
@@ -458,6 +459,7 @@ class State(object):
         s.events = list(self.events)
         s.hashes = list(self.hashes)
         s.bound = dict(self.bound)
+        s.loops = dict(self.loops)
         s.ret = self.ret
         s.raised = self.raised
         return s
@@ -866,6 +868,7 @@ class Frame(object):
             vartext = self._assign_loopvars(target, st, node, self._bname(node))
             st.bound[self._bname(node)] = colltext.split(' if ')[0]       # the collection; a fused filter stays in the EACH text
         nyield = len(st.yields)
+        entry_env = {k: render(v) for k, v in st.env.items() if '.' not in k and '[' not in k} if target is not None else {}
         body = self.block(node.body, st)
         outs = []
         normal = [s for s, status in body if status in ('normal', 'continue', 'break')]
@@ -879,6 +882,15 @@ class Frame(object):
             return outs
         # merge the normal paths of one iteration into a single summarised state
         base = normal[0]
+        if target is not None:
+            # what each path through ONE iteration decided, bound and called (the facts themselves are dropped from the summary)
+            rec = []
+            for s, status in body:
+                if status in ('normal', 'continue', 'break'):
+                    ch = {k: render(v) for k, v in s.env.items() if '.' not in k and '[' not in k and entry_env.get(k) != render(v)}
+                    rec.append(([f for f in s.facts if f not in before.facts], ch, s.calls[len(before.calls):], status))
+            base.loops = dict(before.loops)
+            base.loops[self._bname(node)] = (colltext, rec)
         for name, old in before.env.items():
             if isinstance(old, (Bytes, Hasher)):
                 deltas = []
@@ -923,6 +935,8 @@ class Frame(object):
                     base.stores.append(c)
         base.facts = [f for f in base.facts if f in before.facts]
         # names (re)bound in the body but not accumulators become loop-carried symbols only if they differ
+        if node.orelse and any(status == 'break' for _, status in body):
+            outs.append((base.fork(), 'normal'))        # left by `break`: the else clause is skipped
         outs.extend(self.block(node.orelse, base))
         return outs
 
